@@ -179,13 +179,16 @@ func (rp *realProvider) Run(ctx context.Context, deps core.ProviderDeps) error {
 	rp.RunStarted.Store(true)
 	err := rp.inner.Run(ctx, deps)
 	rp.runErr = err
-	if err != nil && !isCancellation(err) {
+	failed := err != nil && !isCancellation(err)
+	if failed {
 		rp.parkedAtFailure.Store(rp.entered.Load() - rp.left.Load())
 		rp.deliveredAtFailure.Store(rp.delivered.Load())
-		rp.FaultReached.Store(true)
 	}
 	rp.RunReturnAt.Store(time.Now().UnixNano())
 	rp.RunReturned.Store(true)
+	if failed {
+		rp.FaultReached.Store(true) // last: whoever sees it also sees the error
+	}
 	return err
 }
 
